@@ -36,6 +36,11 @@ CLAIMED = {
   text="Extracts the complete decision table of ValidateCalendarObject from the SSA of the current source — atoms: METHOD present, every consistent equal/unequal assignment between component names, VTIMEZONE, UIDs and the empty string, UID read failure — for calendars of up to 3 components (4 in the thorough tier) and compares every row with the statement, including the returned type and UID. Exhaustive over that abstract domain; the interpreter verifies that names and UIDs are touched only through ==/!= (data independence).",
   note="Trusted: go/ssa; my models of ical.Props.Get and Props.Text (presence atom; opaque string + failure atom). Bounded by the number of components.",
   ref="DESIGN.md §3 C19"),
+ "C07": dict(
+  technique="static analysis: decision-table extraction by abstract interpretation of go/ssa over finite predicate domains (compositional), plus write-effects analysis for purity",
+  text="Extracts from the SSA of the current source the decision tables of carddav.Match (layered: query level over <=3 prop-filters, prop-filter level over presence, is-not-defined, inner test and <=3 text-matches, text-match level over match type, negate and predicate, with the operands of each predicate), of Filter (lists <=3, Limit -1..4, per-object match true/false/error) and of the projection, and compares every row with a reference evaluator written from the statement; purity (no write through query, objects or their card) is decided by the effects analysis. Exhaustive over the declared abstract domain; string predicates are independent atoms.",
+  note="Trusted: go/ssa; models of vcard.Card.Get (presence atom + field). Domain constraints: filter names pairwise distinct, vCard non-empty. Bounded list lengths.",
+  ref="DESIGN.md §3 C07"),
 }
 
 def main():
